@@ -63,6 +63,14 @@ impl Clone for Signature {
     fn clone(&self) -> (r: Self) ensures r == *self { unimplemented!() }
 }
 impl Copy for Signature {}
+// type invariants of the key / signature types: fixed lengths
+#[verifier::external_body]
+pub broadcast proof fn axiom_vk_len(k: VerifyingKey) ensures (#[trigger] k.bytes()).len() == 32 {}
+#[verifier::external_body]
+pub broadcast proof fn axiom_sk_len(k: SigningKey) ensures (#[trigger] k.sk_bytes()).len() == 32 {}
+#[verifier::external_body]
+pub broadcast proof fn axiom_sig_len(k: Signature) ensures (#[trigger] k.sig_bytes()).len() == 64 {}
+pub broadcast group group_key_lens { axiom_vk_len, axiom_sk_len, axiom_sig_len }
 } // mod ed25519_dalek
 pub mod crc32fast {
 use vstd::prelude::*;
